@@ -152,7 +152,7 @@ TWIN_NOTE = "twin: same body, postcondition False -> must be refuted"
 def prefixes_from_source():
     """prefix literals that occur as arguments of next_name / next_id in the anchored sources (read from the AST on every run)"""
     out = set()
-    base = "/repo/symplyphysics/core"
+    base = os.environ.get("VERIF_REPO", "/repo") + "/symplyphysics/core"
     for root, _, files in os.walk(base):
         for f in files:
             if not f.endswith(".py"):
